@@ -256,6 +256,7 @@ func checkC10(r *core.Run) {
 		return
 	}
 	c10Layout(r, p)
+	c10LookupSkip(r, p, "R-C10-layout")
 	c10Special(r, p)
 	c10Snapshot(r, p)
 }
@@ -1195,4 +1196,166 @@ func c10TwoPass(r *core.Run, p *core.Program, name string) {
 	sort.Strings(onlyS)
 	sort.Strings(onlyW)
 	r.Check(nAlloc == 1 && len(size) >= 6 && len(onlyS) == 0 && len(onlyW) == 0, rule, "two-pass/"+name, p.Pos(fn.Pos()), fmt.Sprintf("%d size terms, each written with the same width", len(size)), fmt.Sprintf("%s: counted but not written as such: [%s]; written but not counted as such: [%s]", name, strings.Join(onlyS, " ; "), strings.Join(onlyW, " ; ")))
+}
+
+// c10LookupSkip: the single-output lookup walks the record and steps over the outputs it is not asked for.
+// The position after stepping over an output must be the end of that output's script - the upper bound of
+// the slice the same function takes when the output IS the one asked for, under the same outcomes of the
+// tests on the script length (special form or raw).  Otherwise every later output of the record is read
+// from the wrong place: the lookup no longer agrees with the full decoder.
+func c10LookupSkip(r *core.Run, p *core.Program, rule string) {
+	for _, name := range []string{"lib/utxo.OneUtxoRecU", "lib/utxo.OneUtxoRecC"} {
+		fn := p.Func(name)
+		key := "lookup-skip/" + name
+		if fn == nil || len(fn.Params) < 2 {
+			r.Fail(rule, key, "-", "lookup function not found")
+			continue
+		}
+		dat, vout := fn.Params[0], fn.Params[1]
+		condsOf := func(cs []an.DomCond) map[string]bool {
+			m := map[string]bool{}
+			for _, c := range cs {
+				if c.If.Cond == ssa.Value(vout) || an.DependsOn(c.If.Cond, vout) {
+					continue
+				}
+				m[c.Cond] = c.True
+			}
+			return m
+		}
+		type end struct {
+			form  map[string]int64
+			conds map[string]bool
+			pos   token.Pos
+		}
+		var ends []end
+		var head *ssa.BasicBlock
+		var off *ssa.Phi
+		an.Instrs(fn, func(i ssa.Instruction) {
+			sl, ok := i.(*ssa.Slice)
+			if !ok || sl.X != ssa.Value(dat) {
+				return
+			}
+			if sl.High != nil {
+				ends = append(ends, end{an.LinForm(sl.High), condsOf(an.DomConds(sl.Block())), sl.Pos()})
+			} else if ph, ok := sl.Low.(*ssa.Phi); ok && an.LoopBody(ph.Block()) != nil {
+				head, off = ph.Block(), ph
+			}
+		})
+		if head == nil || len(ends) == 0 {
+			r.Fail(rule, key, p.Pos(fn.Pos()), "the walk over the outputs was not recognised")
+			continue
+		}
+		body := an.LoopBody(head)
+		var bad []string
+		paths := 0
+		for i, pr := range head.Preds {
+			if !body[pr] {
+				continue
+			}
+			in := off.Edges[i]
+			// merge blocks below the loop head that the new position passes through
+			var merges []*ssa.BasicBlock
+			seenB := map[*ssa.BasicBlock]bool{}
+			var find func(v ssa.Value, d int)
+			find = func(v ssa.Value, d int) {
+				if d > 12 {
+					return
+				}
+				switch x := v.(type) {
+				case *ssa.Phi:
+					if x.Block() == head {
+						return
+					}
+					if !seenB[x.Block()] {
+						seenB[x.Block()] = true
+						merges = append(merges, x.Block())
+					}
+					for _, e := range x.Edges {
+						find(e, d+1)
+					}
+				case *ssa.BinOp:
+					find(x.X, d+1)
+					find(x.Y, d+1)
+				case *ssa.Convert:
+					find(x.X, d+1)
+				}
+			}
+			find(in, 0)
+			if len(merges) > 4 {
+				bad = append(bad, "too many merges on the way back to the loop head")
+				continue
+			}
+			choice := make([]int, len(merges))
+			for {
+				sel := func(v ssa.Value) ssa.Value {
+					if ph, ok := v.(*ssa.Phi); ok {
+						for k, m := range merges {
+							if ph.Block() == m {
+								return ph.Edges[choice[k]]
+							}
+						}
+					}
+					return nil
+				}
+				conds := condsOf(an.EdgeConds(pr, head))
+				feasible := true
+				for k, m := range merges {
+					for c, v := range condsOf(an.EdgeConds(m.Preds[choice[k]], m)) {
+						if old, has := conds[c]; has && old != v {
+							feasible = false
+						}
+						conds[c] = v
+					}
+				}
+				if feasible {
+					paths++
+					form := an.LinFormWith(in, sel)
+					n := 0
+					for _, e := range ends {
+						compatible := true
+						for c, v := range e.conds {
+							if w, has := conds[c]; has && w != v {
+								compatible = false
+							}
+						}
+						if !compatible {
+							continue
+						}
+						n++
+						if !c13LinEq(form, e.form) {
+							diff := map[string]int64{}
+							for a, k := range form {
+								diff[a] += k
+							}
+							for a, k := range e.form {
+								diff[a] -= k
+								if diff[a] == 0 {
+									delete(diff, a)
+								}
+							}
+							bad = append(bad, fmt.Sprintf("stepping over an output ends at a position that differs from the end of the same output's script (slice at %s) by %s", p.Pos(e.pos), clip(an.Anon(an.LinString(diff)), 200)))
+						}
+					}
+					if n != 1 {
+						bad = append(bad, fmt.Sprintf("%d script slices correspond to one way of stepping over an output (expected 1)", n))
+					}
+				}
+				// next choice
+				k := 0
+				for k < len(choice) {
+					choice[k]++
+					if choice[k] < len(merges[k].Preds) {
+						break
+					}
+					choice[k] = 0
+					k++
+				}
+				if k == len(choice) {
+					break
+				}
+			}
+		}
+		sort.Strings(bad)
+		r.Check(len(bad) == 0 && paths > 0, rule, key, p.Pos(fn.Pos()), fmt.Sprintf("%d ways of stepping over an output end where that output's script ends", paths), strings.Join(bad, "; "))
+	}
 }
